@@ -268,7 +268,8 @@ def case_history(ctx, tname, ops):
         g = []
         for a, b in zip(t1, t2):
             g += eqs(a, b)
-        ctx.prove("path%d: second reproduction (after more interleaving) is the same term array as the first" % pi, hyp, conj(g), replay=rp, witness_terms=names, axioms=False)
+        ctx.prove("path%d: second reproduction (after more interleaving) is the same term array as the first" % pi, hyp, conj(g), replay=rp, witness_terms=names, axioms=False,
+                  timeout_ms=15000, replay_on_unknown=True)
         # against the history-free reference: find the reference path compatible with this path
         s1 = serialise(t1)
         matched = False
@@ -302,7 +303,7 @@ def case_history(ctx, tname, ops):
                 pass
             alts.append(z3.And(*[x == y for x, y in zip(cur, rterms)]))
         goal = z3.Or(*alts) if alts else z3.BoolVal(False)
-        ctx.prove("path%d: equals the history-free reference" % pi, hyp, goal, replay=rp, witness_terms=names, timeout_ms=30000)
+        ctx.prove("path%d: equals the history-free reference" % pi, hyp, goal, replay=rp, witness_terms=names, timeout_ms=15000, replay_on_unknown=True)
     ctx.prove("guard: preconditions satisfiable", PRE, z3.BoolVal(False), expect="sat", kind="vacuity", axioms=False)
 
 
